@@ -328,3 +328,105 @@ func e2eRegen(model map[string]interface{}) (bool, string) {
 	}
 	return deviations > 0, log.String()
 }
+
+func mint(m map[string]interface{}, k string) int {
+	switch v := m[k].(type) {
+	case float64:
+		return int(v)
+	case int64:
+		return int(v)
+	case int:
+		return v
+	}
+	return 0
+}
+
+// renderLayout renders a C03MarkerLayout model as a setup file: token.Pos p = byte offset p-1.
+func renderLayout(m map[string]interface{}) string {
+	size := maxPosLayout + 200
+	buf := []byte(strings.Repeat(" ", size))
+	put := func(pos int, text string) { copy(buf[pos-1:], text) }
+	put(1, "//go:build convergen\n\npackage e2e\n\n")
+	comment := func(pos, lines int, name string) {
+		p := pos
+		for i := 0; i < lines; i++ {
+			put(p, "// "+name+"\n")
+			p += len("// "+name) + 1
+		}
+	}
+	intf := func(decl string, lb, rb int, method bool) {
+		put(lb-len(decl), decl)
+		put(lb, "{")
+		if method {
+			put(lb+1, "\nF(*S)*D\n")
+		}
+		put(rb, "}\n")
+	}
+	if truthy(m, "commentBeforeA") {
+		comment(mint(m, "before.pos"), 1+mint(m, "before.lines"), "before")
+	}
+	la, ra := mint(m, "A.lbrace"), mint(m, "A.rbrace")
+	intf("type Convergen interface ", la, ra, truthy(m, "A.hasMethod"))
+	if truthy(m, "commentInsideA") {
+		comment(mint(m, "inside.pos"), 1, "in")
+	}
+	end := ra
+	if truthy(m, "twoInterfaces") {
+		lb, rb := mint(m, "B.lbrace"), mint(m, "B.rbrace")
+		intf("// :convergen\ntype B interface ", lb, rb, false)
+		if truthy(m, "commentBetween") {
+			comment(mint(m, "between.pos"), 1, "mid")
+		}
+		end = rb
+	}
+	if truthy(m, "commentAfter") {
+		comment(mint(m, "after.pos"), 1, "after")
+		end = mint(m, "after.pos") + 10
+	}
+	src := strings.TrimRight(string(buf[:end+12]), " ") + "\n"
+	return src
+}
+
+const maxPosLayout = 400
+
+// e2eLayout replays a C03MarkerLayout counterexample: the layout is rendered as a real setup file
+// (interfaces A and B are marked converter interfaces), the tool built from the current tree must
+// accept it and emit one function per method in a file that parses.
+func e2eLayout(model map[string]interface{}) (bool, string) {
+	tmp, err := os.MkdirTemp("", "symgo-e2e")
+	if err != nil {
+		return false, err.Error()
+	}
+	defer os.RemoveAll(tmp)
+	bin, err := buildTool(tmp)
+	if err != nil {
+		return false, err.Error()
+	}
+	dir := filepath.Join(tmp, "m")
+	os.MkdirAll(dir, 0755)
+	os.WriteFile(filepath.Join(dir, "go.mod"), []byte("module e2e\n\ngo 1.19\n"), 0644)
+	os.WriteFile(filepath.Join(dir, "types.go"), []byte("package e2e\n\ntype S struct{ X int }\n\ntype D struct{ X int }\n"), 0644)
+	src := renderLayout(model)
+	os.WriteFile(filepath.Join(dir, "setup.go"), []byte(src), 0644)
+	cmd := exec.Command(bin, "-dry", "-print", "setup.go")
+	cmd.Dir = dir
+	cmd.Env = goEnv()
+	var stdout, stderr strings.Builder
+	cmd.Stdout, cmd.Stderr = &stdout, &stderr
+	runErr := cmd.Run()
+	log := "setup file rendered from the model:\n" + src + "\n--- convergen -dry -print setup.go\n" + stderr.String() + stdout.String()
+	if runErr != nil {
+		return true, "DEVIATION: the tool rejects a well-formed setup file\n" + log
+	}
+	wantFuncs := 0
+	if truthy(model, "A.hasMethod") {
+		wantFuncs = 1
+	}
+	if n := strings.Count(stdout.String(), "\nfunc F("); n != wantFuncs {
+		return true, fmt.Sprintf("DEVIATION: %d functions emitted, %d methods declared\n%s", n, wantFuncs, log)
+	}
+	if strings.Contains(stdout.String(), "interface") {
+		return true, "DEVIATION: interface or marker left in the output\n" + log
+	}
+	return false, log
+}
